@@ -59,6 +59,7 @@ type actionDef struct {
 	DurMs  int
 	FailAt int  // 0 never, -1 always, k>0: the k-th run by an actor fails
 	Hang   bool // sleep 300 instead of DurMs
+	FailRc int  // how it fails: 0/3 = `exit 3`; 137 = kills its own shell with SIGKILL; 143 = with SIGTERM
 	Extra  string // extra shell text run before the sleep
 }
 
@@ -116,8 +117,15 @@ func (p *playDef) render(ledger string) string {
 			if a.Hang {
 				sl = "300"
 			}
-			fmt.Fprintf(&b, "  :%s n=$(cat %s.n 2>/dev/null || echo 0); n=$((n+1)); echo $n >%s.n; echo \"$ME A %s $n S $(date +%%s%%N)\" >>$LEDGER; %ssleep %s; rc=0; if %s; then rc=3; fi; echo \"$ME A %s $n E $(date +%%s%%N) $rc\" >>$LEDGER; exit $rc\n",
-				a.Name, a.Name, a.Name, a.Name, a.Extra, sl, cond, a.Name)
+			frc, fin := 3, ""
+			switch a.FailRc {
+			case 137:
+				frc, fin = 137, "if [ $rc != 0 ]; then kill -KILL $$; sleep 5; fi; "
+			case 143:
+				frc, fin = 143, "if [ $rc != 0 ]; then kill -TERM $$; sleep 5; fi; "
+			}
+			fmt.Fprintf(&b, "  :%s n=$(cat %s.n 2>/dev/null || echo 0); n=$((n+1)); echo $n >%s.n; echo \"$ME A %s $n S $(date +%%s%%N)\" >>$LEDGER; %ssleep %s; rc=0; if %s; then rc=%d; fi; echo \"$ME A %s $n E $(date +%%s%%N) $rc\" >>$LEDGER; %sexit $rc\n",
+				a.Name, a.Name, a.Name, a.Name, a.Extra, sl, cond, frc, a.Name, fin)
 		}
 		// cleanup
 		body := ""
@@ -669,6 +677,7 @@ func genLedgerPlay(rng *rand.Rand, prop string, i int) (*playDef, *cmd.VerifCfg)
 				}
 				if tol && rng.Intn(2) == 0 {
 					a.FailAt = pick(rng, []int{-1, 1, 2})
+					a.FailRc = pick(rng, []int{3, 3, 137, 143})
 				}
 			}
 			if rng.Intn(3) == 0 {
@@ -688,19 +697,57 @@ func genLedgerPlay(rng *rand.Rand, prop string, i int) (*playDef, *cmd.VerifCfg)
 						}
 					}
 				}
+				if (i/4)%4 != 0 {
+					// prefer an action of a line with several steps
+					var multi []*actionDef
+					for _, c := range cands {
+						for _, sc := range p.Scenes {
+							for _, e := range sc.Entails {
+								for _, st := range e.Steps {
+									if st.Action == c.Name && len(e.Steps) >= 2 {
+										multi = append(multi, c)
+									}
+								}
+							}
+						}
+					}
+					if len(multi) > 0 {
+						cands = multi
+					}
+				}
 				if len(cands) > 0 {
 					a := cands[rng.Intn(len(cands))]
 					a.FailAt = pick(rng, []int{-1, 1, 1, 2})
+					a.FailRc = pick(rng, []int{3, 3, 137, 143})
 					want := mode == 1 // tolerated?
 					if mode == 3 {
 						want = rng.Intn(2) == 0
 					}
 					for si := range p.Scenes {
 						for ei := range p.Scenes[si].Entails {
-							for ki := range p.Scenes[si].Entails[ei].Steps {
-								st := &p.Scenes[si].Entails[ei].Steps[ki]
+							steps := p.Scenes[si].Entails[ei].Steps
+							for ki := range steps {
+								st := &steps[ki]
 								if st.Action == a.Name {
 									st.FailOk = want
+									// mix `?` and non-`?` actions around the failing one, in both orders
+									// (i/4 cycles through: as generated / opposite mark before / after / both)
+									switch (i / 4) % 4 {
+									case 1:
+										if ki > 0 {
+											steps[ki-1].FailOk = !want
+										}
+									case 2:
+										if ki+1 < len(steps) {
+											steps[ki+1].FailOk = !want
+										}
+									case 3:
+										for kj := range steps {
+											if kj != ki {
+												steps[kj].FailOk = !want
+											}
+										}
+									}
 								}
 							}
 						}
@@ -863,8 +910,19 @@ func genC07(rng *rand.Rand, tier string) []*playDef {
 		p.Flags = []string{"-S"}
 		add(p, "audit-foul-S", pos)
 	}
+	// 5b. audit foul with -S while a long (3 s) action is in progress and a chatty spotlight keeps
+	// emitting watched values: the cascade collector -> auditors -> spotlights must still unwind
+	{
+		p := baseC07("")
+		p.action("a0s0").DurMs = 3000
+		p.Spot["x1"] = "i=0; while true; do i=$((i+1)); echo \"v $i\"; sleep 0.01; done"
+		p.Audience = []string{"bob watches x1 v", "bob expects always: [x1 v] < 8"}
+		p.Flags = []string{"-S"}
+		add(p, "audit-foul-S-chatty-long-action", "a0s0")
+	}
+	exprS := rng.Intn(2) == 0
 	for _, withS := range []bool{false, true} {
-		if quick && withS != (rng.Intn(2) == 0) {
+		if quick && withS != exprS {
 			continue
 		}
 		p := baseC07("")
@@ -992,8 +1050,16 @@ func coqLedgerCase(c *caseOut) string {
 	for _, r := range o.Cleanups {
 		cl = append(cl, fmt.Sprintf("mkClrow %d %d %s %s %s", c.ActorIdx[r.Actor], r.N, vh.Z(r.Start), vh.Z(r.End), vh.Z(int64(r.Rc))))
 	}
-	return fmt.Sprintf("mkLcase %s %d %s %s %s %d %s %s %s %s %s %s",
-		coqPlay(c), c.Play.RepeatActNum, vh.Z(int64(c.Play.RepeatCount)), vh.Z(c.Play.RepeatTimeout), vh.Z(c.Play.TempoNs),
+	var marks []string
+	for _, sc := range c.Def.Scenes {
+		for _, e := range sc.Entails {
+			for _, st := range e.Steps {
+				marks = append(marks, fmt.Sprintf("(%d%%N, %s)", c.ActionIdx[st.Action], vh.Bool(st.FailOk)))
+			}
+		}
+	}
+	return fmt.Sprintf("mkLcase %s %s %d %s %s %s %d %s %s %s %s %s %s",
+		coqPlay(c), vh.List(marks), c.Play.RepeatActNum, vh.Z(int64(c.Play.RepeatCount)), vh.Z(c.Play.RepeatTimeout), vh.Z(c.Play.TempoNs),
 		c.Def.SpotKind, vh.Z(o.LaunchNs), vh.Z(o.ExitNs), vh.Z(int64(o.Exit)),
 		vh.List(cl), vh.List(led), vh.List(csv))
 }
@@ -1001,7 +1067,7 @@ func coqLedgerCase(c *caseOut) string {
 var faultKinds = []string{"none", "action-fails", "spotlight-fails", "spotlight-ignores-hup-leader", "spotlight-ignores-hup-child",
 	"spotlight-ignores-hup-bgchild", "cleanup-fails-1", "cleanup-fails-2", "audit-foul-S", "expr-error", "expr-error-S",
 	"sigint", "sigterm", "action-hangs-sigint", "cleanup-hangs-1", "action-hangs-peer-fails", "action-hangs-sigterm",
-	"cleanup-hangs-2", "action-hangs-spotlight-fails", "action-hangs-audit-foul-S", "spotlight-graceful-hup"}
+	"cleanup-hangs-2", "action-hangs-spotlight-fails", "action-hangs-audit-foul-S", "spotlight-graceful-hup", "audit-foul-S-chatty-long-action"}
 
 func faultIdx(f string) int {
 	for i, k := range faultKinds {
@@ -1186,6 +1252,20 @@ func main() {
 			}
 			if c.Obs.Exit != 0 {
 				dist["exit-nonzero"]++
+			}
+			for _, r := range c.Obs.Ledger {
+				if r.Rc == 137 || r.Rc == 143 {
+					dist["rows-of-actions-killed-by-a-signal"]++
+				}
+			}
+			for _, sc := range c.Def.Scenes {
+				for _, e := range sc.Entails {
+					for k := 1; k < len(e.Steps); k++ {
+						if e.Steps[k-1].FailOk && !e.Steps[k].FailOk {
+							dist["lines-with-tolerated-then-non-tolerated"]++
+						}
+					}
+				}
 			}
 			if nsc >= 2 && len(c.Obs.Ledger) >= 2 {
 				nontriv[c.Cfg[strings.Index(c.Cfg, "script"):]] = true
